@@ -356,7 +356,7 @@ function list_get(l, i)
 end
 
 function list_set(l, i, x)
-    if #l > i then
+    if i >= 0 and #l > i then
         l[i+1] = x
     end
 end
